@@ -6,6 +6,7 @@ import (
 	"context"
 	"fmt"
 	"slices"
+	"sync"
 
 	am "github.com/pancsta/asyncmachine-go/pkg/machine"
 	"github.com/pancsta/asyncmachine-go/pkg/rpc/states"
@@ -161,4 +162,22 @@ func (s *Server) VerifHello(req *MsgCliHello) (
 		return nil, nil, err
 	}
 	return resp.Serialized, &VerifData{d: s.lastPushData}, nil
+}
+
+var verifSched sync.Map // *Server -> func(point string)
+
+// VerifSetSched installs (fn != nil) or removes a schedule callback for one
+// server. It is called on the goroutine that reaches a schedule point.
+func VerifSetSched(s *Server, fn func(point string)) {
+	if fn == nil {
+		verifSched.Delete(s)
+	} else {
+		verifSched.Store(s, fn)
+	}
+}
+
+func verifPoint(s *Server, point string) {
+	if fn, ok := verifSched.Load(s); ok {
+		fn.(func(string))(point)
+	}
 }
